@@ -99,6 +99,15 @@ type LocalSpec struct {
 	Cmps   []LocalCmp `json:"cmps"`
 }
 
+// CondSpec: the source text of every `if` condition of a function, in source order
+// (ties inline decision expressions that are not functions of their own).
+type CondSpec struct {
+	Dir  string `json:"dir"`
+	Recv string `json:"recv"`
+	Func string `json:"func"`
+	Name string `json:"name"` // Lean name
+}
+
 type Spec struct {
 	Module      string      `json:"module"`       // output file Gen/<Module>.lean
 	Imports     []string    `json:"imports"`      // other Gen modules this one refers to
@@ -115,6 +124,7 @@ type Spec struct {
 	SelSets  []SelSetSpec  `json:"selsets"`
 	CallArgs []CallArgSpec `json:"callargs"`
 	Guards   []SkelSpec    `json:"guards"` // functions whose `if` conditions are emitted as source text (Gen.Guard.<name>)
+	Conds    []CondSpec    `json:"conds"`
 }
 
 var fset = token.NewFileSet()
@@ -886,6 +896,48 @@ func genRoute(root string, rs *RouteSpec, out *strings.Builder) {
 	fmt.Fprintf(out, "  %s\n", leanStr(def))
 }
 
+// genConds emits the `if` conditions (and `x := <bool expr>` of && / || / comparison shape) of a function as source text.
+func genConds(root string, cs *CondSpec, out *strings.Builder) {
+	p := loadPkg(root, cs.Dir)
+	key := cs.Func
+	if cs.Recv != "" {
+		key = cs.Recv + "." + cs.Func
+	}
+	fd, ok := p.funcs[key]
+	if !ok {
+		die("conds: function %s not found in %s", key, cs.Dir)
+	}
+	src := func(e ast.Expr) string {
+		var sb strings.Builder
+		printer.Fprint(&sb, fset, e)
+		return strings.Join(strings.Fields(sb.String()), " ")
+	}
+	var conds []string
+	ast.Inspect(fd.Body, func(n ast.Node) bool {
+		switch n := n.(type) {
+		case *ast.IfStmt:
+			c := src(n.Cond)
+			if n.Init != nil {
+				var sb strings.Builder
+				printer.Fprint(&sb, fset, n.Init)
+				c = strings.Join(strings.Fields(sb.String()), " ") + "; " + c
+			}
+			conds = append(conds, leanStr(c))
+		case *ast.AssignStmt:
+			if len(n.Lhs) == 1 && len(n.Rhs) == 1 {
+				if be, ok := n.Rhs[0].(*ast.BinaryExpr); ok {
+					switch be.Op {
+					case token.LAND, token.LOR, token.EQL, token.NEQ:
+						conds = append(conds, leanStr(src(n.Lhs[0])+" := "+src(n.Rhs[0])))
+					}
+				}
+			}
+		}
+		return true
+	})
+	fmt.Fprintf(out, "def %s : List String := [%s]\n", cs.Name, strings.Join(conds, ", "))
+}
+
 func selStr(e ast.Expr) string {
 	switch e := e.(type) {
 	case *ast.Ident:
@@ -1137,6 +1189,14 @@ func genModule(repo string, spec *Spec, outDir string) {
 			genGuards(repo, &spec.Guards[i], &cs)
 		}
 		cs.WriteString("end Guard\n\n")
+	}
+	if len(spec.Conds) > 0 {
+		cs.WriteString("namespace Cond\n")
+		sort.SliceStable(spec.Conds, func(i, j int) bool { return spec.Conds[i].Name < spec.Conds[j].Name })
+		for i := range spec.Conds {
+			genConds(repo, &spec.Conds[i], &cs)
+		}
+		cs.WriteString("end Cond\n\n")
 	}
 	cs.WriteString("end Gen\n")
 	writeIfChanged(filepath.Join(outDir, spec.Module+".lean"), cs.String())
